@@ -6,6 +6,8 @@ import (
 	"testing"
 
 	"github.com/bufbuild/protocompile/linker"
+	"google.golang.org/protobuf/encoding/protowire"
+	"google.golang.org/protobuf/proto"
 	"google.golang.org/protobuf/reflect/protoreflect"
 	"pgregory.net/rapid"
 
@@ -192,4 +194,286 @@ func TestC15_Spellings(t *testing.T) {
 	ev.Run(t, ev.Spec[c15Case]{ID: "C15", Name: "Spellings", Quick: 250, Thorough: 12000,
 		Rule: "multi-package workspaces (packages a, a.b, a.b.c, a.c, b, b.a and none; type names A-N reused at several scopes; field names that collide with outer type names; public and non-public import chains); for up to 4 reference sites per workspace (field type, map value type, extendee, rpc input/output) EVERY spelling of the target (each dotted suffix and the absolute form) is tried, one at a time; oracle: a re-implementation of protoc's LookupSymbolNoPlaceholder/FindSymbol (innermost scope of the first name component; aggregate required for compound names, search stops there; non-types skipped only for field types; invisible files and packages treated as absent): model says target -> must compile and resolve to it; model says nothing -> must be rejected; model says another element -> if accepted it must be exactly that element; non-trivial = the simpler 'innermost scope containing the full dotted name' algorithm would answer differently; distinct by site+spelling+workspace",
 		Gen:  c15Gen, Check: c15Check})
+}
+
+// c15Probes lists every spelling of every reference site of a workspace with the model's prediction.
+func c15Probes(ws *gen.Workspace) []c15Probe {
+	st := gen.NewSymTab(ws)
+	var out []c15Probe
+	for _, s := range gen.RefSites(ws) {
+		good, elsewhere, fails := st.ValidSpellings(s)
+		orig := s.Get()
+		add := func(sp, class string) {
+			s.Set(sp)
+			p := c15Probe{File: s.File.Name, Element: s.RelativeTo, Kind: s.Kind, Spelling: sp, Class: class, Files: ws.PrintAll(), Names: ws.Names()}
+			if r := st.Resolve(s.File, s.RelativeTo, sp, s.TypesOnly); r != nil {
+				p.Expect, p.ExpectType = r.FQN, r.IsType()
+			}
+			p.Naive = naiveResolve(st, s.File, s.RelativeTo, sp)
+			out = append(out, p)
+		}
+		for _, sp := range good {
+			add(sp, "good")
+		}
+		for _, sp := range elsewhere {
+			add(sp, "elsewhere")
+		}
+		for _, sp := range fails {
+			add(sp, "fails")
+		}
+		s.Set(orig)
+	}
+	return out
+}
+
+// TestC15_PackageShapes enumerates where a name's leading components can come from: the packages of the referring
+// file, of a directly imported file, of a file seen only through a public re-export, and of a decoy that declares the
+// same names in another package.
+func TestC15_PackageShapes(t *testing.T) {
+	pkgs := []string{"", "a", "a.b", "a.b.c", "a.c", "b"}
+	ev.RunEnum(t, ev.Spec[c15Case]{ID: "C15", Name: "PackageShapes",
+		Rule:  "ALL combinations of: package of the referring file, of the target's file and of a decoy file (each from {none, a, a.b, a.b.c, a.c, b}; the decoy declares the same message names and differs in package from the target's file), the target's file imported directly or only seen through mid.proto (package m) which imports it plainly or publicly, the decoy imported or not; the referring message has one field of the target's message type and one of its nested message type, and EVERY spelling of each (each dotted suffix and the absolute form) is tried; same oracle as Spellings (the model decides: resolves to the target, to another element, or to nothing); non-trivial as in Spellings",
+		Check: c15Check}, true, func(yield func(c15Case) bool) {
+		q := func(pkg, name string) string {
+			if pkg == "" {
+				return name
+			}
+			return pkg + "." + name
+		}
+		decl := func(pkg string) []*gen.Message {
+			return []*gen.Message{{Name: "T", FQN: q(pkg, "T"), OneofOpts: map[int][]gen.Opt{}, Nested: []*gen.Message{{Name: "Deep", FQN: q(pkg, "T.Deep"), OneofOpts: map[int][]gen.Opt{}}}}}
+		}
+		for _, pm := range pkgs {
+			for _, pd := range pkgs {
+				for _, pc := range pkgs {
+					if pc == pd {
+						continue
+					}
+					for shape := 0; shape < 8; shape++ {
+						direct, public, decoy := shape&1 != 0, shape&2 != 0, shape&4 != 0
+						deep := &gen.File{Name: "deep.proto", Syntax: gen.Proto3, Package: pd, Messages: decl(pd)}
+						dec := &gen.File{Name: "decoy.proto", Syntax: gen.Proto3, Package: pc, Messages: decl(pc)}
+						mid := &gen.File{Name: "mid.proto", Syntax: gen.Proto3, Package: "m", Imports: []gen.Import{{Path: "deep.proto", Public: public}}}
+						main := &gen.File{Name: "main.proto", Syntax: gen.Proto3, Package: pm, Imports: []gen.Import{{Path: "mid.proto"}}}
+						if direct {
+							main.Imports = append(main.Imports, gen.Import{Path: "deep.proto"})
+						}
+						if decoy {
+							main.Imports = append(main.Imports, gen.Import{Path: "decoy.proto"})
+						}
+						main.Messages = []*gen.Message{{Name: "Main", FQN: q(pm, "Main"), OneofOpts: map[int][]gen.Opt{}, Fields: []*gen.Field{
+							{Name: "f1", Number: 1, Type: "message", TypeFQN: q(pd, "T"), Oneof: -1},
+							{Name: "f2", Number: 2, Type: "message", TypeFQN: q(pd, "T.Deep"), Oneof: -1},
+						}}}
+						ws := &gen.Workspace{Files: []*gen.File{deep, dec, mid, main}}
+						if !yield(c15Case{Probes: c15Probes(ws)}) {
+							return
+						}
+					}
+				}
+			}
+		}
+	})
+}
+
+// ---- extension names inside message literals ----
+
+type c15LitCase struct {
+	Pkg      string
+	Declared int    // bit 0: file-level x (100), bit 1: Outer.x (101), bit 2: Outer.Inner.x (102)
+	Site     string // file, outer-msg, outer-field, inner-msg, inner-field
+	Spelling string
+}
+
+func c15LitSource(c c15LitCase) string {
+	var sb strings.Builder
+	sb.WriteString("syntax = \"proto2\";\n")
+	if c.Pkg != "" {
+		sb.WriteString("package " + c.Pkg + ";\n")
+	}
+	sb.WriteString("import \"google/protobuf/descriptor.proto\";\nmessage Cfg { extensions 100 to 200; }\n")
+	sb.WriteString("extend google.protobuf.FileOptions { optional Cfg fopt = 50001; }\nextend google.protobuf.MessageOptions { optional Cfg mopt = 50002; }\nextend google.protobuf.FieldOptions { optional Cfg flopt = 50003; }\n")
+	lit := "{ [" + c.Spelling + "]: 7 }"
+	if c.Declared&1 != 0 {
+		sb.WriteString("extend Cfg { optional int32 x = 100; }\n")
+	}
+	if c.Site == "file" {
+		sb.WriteString("option (fopt) = " + lit + ";\n")
+	}
+	sb.WriteString("message Outer {\n")
+	if c.Declared&2 != 0 {
+		sb.WriteString("  extend Cfg { optional int32 x = 101; }\n")
+	}
+	if c.Site == "outer-msg" {
+		sb.WriteString("  option (mopt) = " + lit + ";\n")
+	}
+	if c.Site == "outer-field" {
+		sb.WriteString("  optional int32 f = 1 [(flopt) = " + lit + "];\n")
+	} else {
+		sb.WriteString("  optional int32 f = 1;\n")
+	}
+	sb.WriteString("  message Inner {\n")
+	if c.Declared&4 != 0 {
+		sb.WriteString("    extend Cfg { optional int32 x = 102; }\n")
+	}
+	if c.Site == "inner-msg" {
+		sb.WriteString("    option (mopt) = " + lit + ";\n")
+	}
+	if c.Site == "inner-field" {
+		sb.WriteString("    optional int32 g = 1 [(flopt) = " + lit + "];\n")
+	} else {
+		sb.WriteString("    optional int32 g = 1;\n")
+	}
+	sb.WriteString("  }\n}\n")
+	return sb.String()
+}
+
+// c15LitModel: the name is looked up as protoc does from the PACKAGE scope only (the enclosing messages are not
+// scopes for an extension name inside a message literal - linker/resolve.go documents this protoc behaviour); the
+// result must be an extension of Cfg. Returns the extension's number, or 0 when the file must be rejected.
+func c15LitModel(c c15LitCase) int {
+	q := func(a, b string) string {
+		if a == "" {
+			return b
+		}
+		return a + "." + b
+	}
+	f := &gen.File{Name: "a.proto", Syntax: gen.Proto2, Package: c.Pkg}
+	ext := func(scope string, num int) *gen.Extend {
+		return &gen.Extend{Extendee: q(c.Pkg, "Cfg"), Scope: scope, Fields: []*gen.Field{{Name: "x", Number: num, Type: "int32", Oneof: -1}}}
+	}
+	inner := &gen.Message{Name: "Inner", FQN: q(c.Pkg, "Outer.Inner"), Fields: []*gen.Field{{Name: "g", Number: 1, Type: "int32", Oneof: -1}}}
+	outer := &gen.Message{Name: "Outer", FQN: q(c.Pkg, "Outer"), Fields: []*gen.Field{{Name: "f", Number: 1, Type: "int32", Oneof: -1}}, Nested: []*gen.Message{inner}}
+	f.Messages = []*gen.Message{{Name: "Cfg", FQN: q(c.Pkg, "Cfg")}, outer}
+	nums := map[string]int{}
+	if c.Declared&1 != 0 {
+		f.Extends = append(f.Extends, ext(c.Pkg, 100))
+		nums[q(c.Pkg, "x")] = 100
+	}
+	if c.Declared&2 != 0 {
+		outer.Extends = append(outer.Extends, ext(outer.FQN, 101))
+		nums[outer.FQN+".x"] = 101
+	}
+	if c.Declared&4 != 0 {
+		inner.Extends = append(inner.Extends, ext(inner.FQN, 102))
+		nums[inner.FQN+".x"] = 102
+	}
+	st := gen.NewSymTab(&gen.Workspace{Files: []*gen.File{f}})
+	r := st.Resolve(f, q(c.Pkg, "Outer"), c.Spelling, false) // an element directly in the package: scopes are the package's
+	if r == nil || r.Kind != gen.SymExtension {
+		return 0
+	}
+	return nums[r.FQN]
+}
+
+// c15LitObserved: the number of the Cfg extension that the compiled option value sets (0 if none).
+func c15LitObserved(c c15LitCase, f linker.File) (int, error) {
+	var opts proto.Message
+	var optNum protowire.Number
+	outer := f.Messages().ByName("Outer")
+	switch c.Site {
+	case "file":
+		opts, optNum = f.Options(), 50001
+	case "outer-msg":
+		opts, optNum = outer.Options(), 50002
+	case "outer-field":
+		opts, optNum = outer.Fields().ByName("f").Options(), 50003
+	case "inner-msg":
+		opts, optNum = outer.Messages().ByName("Inner").Options(), 50002
+	case "inner-field":
+		opts, optNum = outer.Messages().ByName("Inner").Fields().ByName("g").Options(), 50003
+	}
+	b, err := proto.Marshal(opts)
+	if err != nil {
+		return 0, err
+	}
+	for len(b) > 0 {
+		num, typ, n := protowire.ConsumeTag(b)
+		if n < 0 {
+			return 0, fmt.Errorf("bad options encoding")
+		}
+		b = b[n:]
+		if num == optNum && typ == protowire.BytesType {
+			v, m := protowire.ConsumeBytes(b)
+			if m < 0 {
+				return 0, fmt.Errorf("bad options encoding")
+			}
+			inner, _, k := protowire.ConsumeTag(v)
+			if k < 0 {
+				return 0, nil
+			}
+			return int(inner), nil
+		}
+		m := protowire.ConsumeFieldValue(num, typ, b)
+		if m < 0 {
+			return 0, fmt.Errorf("bad options encoding")
+		}
+		b = b[m:]
+	}
+	return 0, nil
+}
+
+func TestC15_LiteralExtensionScopes(t *testing.T) { c15LitRun(t, "C15") }
+
+// The same enumeration decides part of C02 (which extension field an option value sets is descriptor content).
+func TestC02_LiteralExtensionScopes(t *testing.T) { c15LitRun(t, "C02") }
+
+func c15LitRun(t *testing.T, id string) {
+	ev.RunEnum(t, ev.Spec[c15LitCase]{ID: id, Name: "LiteralExtensionScopes",
+		Rule: "ALL combinations of: package (none, a, a.b); an extension named x of one extendee declared at file level, in message Outer and/or in Outer.Inner (8 subsets, different numbers); one custom option whose value is a message literal { [NAME]: 7 } on the file, on Outer, on a field of Outer, on Outer.Inner or on a field of Outer.Inner; NAME = every dotted suffix of each of the three possible full names (a literal's grammar has no leading-dot form); oracle: protoc's lookup from the package scope only (the enclosing messages are not scopes for an extension name inside a message literal, as linker/resolve.go documents and the repository's scoping test pins for package foo.bar): model resolves to an extension -> the file compiles and the option value sets exactly that extension number; model resolves to nothing -> rejected; non-trivial = the site is inside a message that declares x itself (message scoping would answer differently)",
+		Check: func(c c15LitCase, r *ev.Rec) error {
+			want := c15LitModel(c)
+			src := c15LitSource(c)
+			files, err := compileMap(map[string]string{"a.proto": src}, []string{"a.proto"}, compileOpts{})
+			if (err == nil) != (want != 0) {
+				return fmt.Errorf("extension name %q in a message literal on %s (package %q, x declared at %03b): the model resolves it to number %d (0 = nothing), compilation said: %v\n%s", c.Spelling, c.Site, c.Pkg, c.Declared, want, err, src)
+			}
+			if err == nil {
+				got, oerr := c15LitObserved(c, files[0])
+				if oerr != nil {
+					return oerr
+				}
+				if got != want {
+					return fmt.Errorf("extension name %q in a message literal on %s (package %q, x declared at %03b) set extension number %d, protoc's scoping gives %d\n%s", c.Spelling, c.Site, c.Pkg, c.Declared, got, want, src)
+				}
+			}
+			nt := (strings.HasPrefix(c.Site, "outer") && c.Declared&2 != 0) || (strings.HasPrefix(c.Site, "inner") && c.Declared&6 != 0)
+			lab := "rejected"
+			if want != 0 {
+				lab = fmt.Sprintf("resolves-to-%d", want)
+			}
+			r.Case(ev.JSONFP(c), nt, "site="+c.Site, lab)
+			if nt && want != 0 && r.WantSample() {
+				r.Sample(c)
+			}
+			return nil
+		}}, true, func(yield func(c15LitCase) bool) {
+		for _, pkg := range []string{"", "a", "a.b"} {
+			q := func(b string) string {
+				if pkg == "" {
+					return b
+				}
+				return pkg + "." + b
+			}
+			seen := map[string]bool{}
+			var spellings []string
+			for _, fq := range []string{q("x"), q("Outer.x"), q("Outer.Inner.x")} {
+				for _, sp := range gen.Spellings(fq) {
+					if !seen[sp] && !strings.HasPrefix(sp, ".") { // the grammar of a message literal has no leading dot
+						seen[sp] = true
+						spellings = append(spellings, sp)
+					}
+				}
+			}
+			for decl := 0; decl < 8; decl++ {
+				for _, site := range []string{"file", "outer-msg", "outer-field", "inner-msg", "inner-field"} {
+					for _, sp := range spellings {
+						if !yield(c15LitCase{Pkg: pkg, Declared: decl, Site: site, Spelling: sp}) {
+							return
+						}
+					}
+				}
+			}
+		}
+	})
 }
